@@ -2,7 +2,7 @@
 From Coq Require Import List Arith NArith Lia Bool ZifyN ZifyNat ZifyBool.
 From FS Require Import Sx Model.Path Model.Fs Model.RootPath Model.CopyFs Model.CopyFsSpec
   Proofs.Lex Proofs.PathP Proofs.FsP Proofs.RootPathStrP Proofs.FsCopyFrameP Proofs.FsCopyInvP
-  Proofs.FsCopySafeP Proofs.FsCopyLinksP Proofs.FsCopySysP Proofs.CopyFsP Proofs.CopyRecP Proofs.CopyTopP.
+  Proofs.FsCopySafeP Proofs.FsCopyLinksP Proofs.FsCopySysP Proofs.CopyFsP Proofs.CopyRecP Proofs.CopyFsTopP.
 Import ListNotations.
 Open Scope N_scope.
 Open Scope bool_scope.
@@ -50,7 +50,7 @@ Proof.
   apply (inv_frame f0 dr (s_fs s') (cx_inv _ _ _ _ _ C')); auto.
 Qed.
 
-From FS Require Import Proofs.CopyTop2P Proofs.CopyTop3P.
+From FS Require Import Proofs.CopyFsTop2P Proofs.CopyFsTop3P.
 
 Local Opaque rfuel.
 
